@@ -286,11 +286,14 @@ def mode_fit_loop(p):
     def one(seed):
         rs = np.random.RandomState(seed)
         K = rs.randint(2, 9)
-        L = list(-np.cumsum(rs.uniform(0.0, 1.0, size=12)) * rs.choice([1e-3, 1.0]) - 5.0)
+        # criterion sequences of every magnitude (average log-likelihoods near 0 as well as large ones) and of every
+        # size of relative change: the rule is RELATIVE, nothing absolute may enter
+        off = float(rs.choice([5.0, 1e-4, 1e3]))
+        L = list(-off * (1 + np.cumsum(rs.uniform(0.0, 1.0, size=12)) * rs.choice([1e-3, 1.0, 2e-5])))
         if seed % 2:
             j = rs.randint(1, 10)
             L[j + 1] = L[j] * (1 + rs.choice([0.0, 1e-6, -1e-6, 9e-6]))
-        thr = rs.choice([None, 1e-5, 1e-3])
+        thr = rs.choice([None, 1e-5, 1e-3, 1e-12])
         mx = rs.choice([None, K]) if thr is not None else K
         calls = []
         real_m, real_e = g.m_step, g.e_step
@@ -339,6 +342,10 @@ def mode_history(p):
         rs = np.random.RandomState(seed)
         C, D = rs.randint(1, 4), rs.randint(1, 4)
         m = mk(C, D, seed)
+        if seed % 2:
+            # a MAP machine adapted from a prior (relevance-factor adaptation, every update switch drawn at random below)
+            prior = mk(C, D, seed + 1000)
+            m = mk(C, D, seed, trainer="map", ubm=prior, map_relevance_factor=float(rs.choice([0.5, 4.0])))
         x = rs.normal(size=(6, D)) + 3
         hist = []
         for step in range(12):
